@@ -1,5 +1,6 @@
 import H2V.Model.PingAtomics
 import H2V.Generated.Locks
+import H2V.Generated.LockScopes
 /-
   C20 — handles may be used from any thread concurrently with the connection.
   Property theorems only.  (Part: the lock-free user-ping hand-shake; the mutex-protected part is
@@ -37,5 +38,24 @@ def innerAfterBuffer : List Nat → Bool
     buffer mutex, never the other way round — two handles on two threads cannot deadlock on them. -/
 theorem lock_order_acyclic :
     H2V.Generated.Locks.lockSeqs.all (fun p => !innerAfterBuffer p.2) = true := by decide
+
+/-- is a transport-progress call (2) ever made while a streams-lock guard (0 … 1) is alive? -/
+def noTransportWhileLocked : Nat → List Nat → Bool
+  | _, [] => true
+  | held, 0 :: r => noTransportWhileLocked (held + 1) r
+  | held, 1 :: r => noTransportWhileLocked (held - 1) r
+  | held, 2 :: r => held == 0 && noTransportWhileLocked held r
+  | held, _ :: r => noTransportWhileLocked held r
+
+/-- **The connection task never lets the transport make progress while it holds the streams lock**: in
+    every function of `proto/streams/streams.rs` that both takes the lock and calls `dst.poll_ready` /
+    `dst.flush` / `dst.shutdown` (guard scopes and calls regenerated from the source on every run),
+    no such call lies inside the scope of a lock guard.  A handle used on another thread therefore
+    never has to wait for a transport write — and a write whose completion depends on that thread
+    cannot deadlock with it. -/
+theorem no_transport_progress_under_streams_lock :
+    H2V.Generated.LockScopes.events.all (fun f => noTransportWhileLocked 0 f.2) = true := by decide
+
+example : noTransportWhileLocked 0 [0, 2, 1] = false := by decide   -- what the theorem rules out
 
 end H2V.Props.C20
